@@ -77,8 +77,8 @@ def translators(prop):
     return ok, log
 
 
-ALL_TRANSLATORS = ["tr_rules", "tr_prec", "tr_smart", "tr_naming", "tr_opts"]
-TRANSLATORS_FOR: dict[str, list[str]] = {"C19": ["tr_rules"], "C16": ["tr_prec"], "C17": ["tr_smart"], "C13": ["tr_naming"], "C20": ["tr_opts"]}
+ALL_TRANSLATORS = ["tr_rules", "tr_prec", "tr_smart", "tr_naming", "tr_opts", "tr_jit"]
+TRANSLATORS_FOR: dict[str, list[str]] = {"C19": ["tr_rules"], "C16": ["tr_prec"], "C17": ["tr_smart"], "C13": ["tr_naming"], "C20": ["tr_opts"], "C14": ["tr_jit"], "C15": ["tr_jit"]}
 
 # what `make` must build for a property: only its own closure, so that a broken
 # obligation of one property never raises an alarm for another
@@ -87,6 +87,8 @@ PROP_TARGETS: dict[str, list[str]] = {
     "C03": KERNEL, "C05": KERNEL, "C07": KERNEL, "C08": KERNEL,
     "C19": KERNEL + ["theories/RuleIds.vo", "gen/Rules.vo"],
     "C06": ["theories/FormData.vo"],
+    "C14": ["theories/Jit.vo", "gen/JitGen.vo"],
+    "C15": ["theories/Jit.vo", "gen/JitGen.vo"],
     "C20": ["theories/Cli.vo", "gen/OptGen.vo"],
     "C13": ["theories/Naming.vo", "gen/NamingGen.vo"],
     "C17": ["theories/Smart.vo", "theories/SmartQc.vo", "theories/Render.vo", "theories/Enc.vo", "theories/Num.vo"],
